@@ -366,13 +366,13 @@ func renderRuleRecord(t ruleTuple, n int, variant int) (line string, want map[st
 		want["kind"] = "pivot_root"
 		want["tokens"] = []string{"/newroot/"}
 	case "mqueue":
-		line = head + fmt.Sprintf(`operation="open" class="posix_mqueue" profile=%s name="/vgenqueue"%s requested="read create" denied="read create" fsuid=1000 ouid=1000`, q(prof), pidcomm)
+		line = head + fmt.Sprintf(`operation="open" class="posix_mqueue" profile=%s name="/vgenqueue"%s requested="read create" denied="read create" label="objlabel" fsuid=1000 ouid=1000`, q(prof), pidcomm)
 		want["kind"] = "mqueue"
-		want["tokens"] = []string{"/vgenqueue"}
+		want["tokens"] = []string{"/vgenqueue", "objlabel"}
 	case "io_uring":
-		line = head + fmt.Sprintf(`operation="uring_sqpoll" class="io_uring" profile=%s%s requested="sqpoll" denied="sqpoll"`, q(prof), pidcomm)
+		line = head + fmt.Sprintf(`operation="uring_sqpoll" class="io_uring" profile=%s%s requested="sqpoll" denied="sqpoll" label="objlabel"`, q(prof), pidcomm)
 		want["kind"] = "io_uring"
-		want["tokens"] = []string{"sqpoll"}
+		want["tokens"] = []string{"sqpoll", "objlabel"}
 	case "userns":
 		line = head + fmt.Sprintf(`operation="userns_create" class="namespace" info="Userns create restricted - failed to find unprivileged_userns profile" error=-13 profile=%s%s requested="userns_create" denied="userns_create" target="unprivileged_userns"`, q(prof), pidcomm)
 		want["kind"] = "userns"
@@ -533,13 +533,14 @@ func checkC16(e *Env, r *Report) {
 		var seq []struct {
 			P    int    `json:"p"`
 			Mask string `json:"mask"`
+			Own  bool   `json:"own"`
 		}
 		if err := json.Unmarshal([]byte(h), &seq); err != nil {
 			r.Fatal = "bad BEHH"
 			return
 		}
 		for _, it := range seq {
-			t := ruleTuple{Cls: "file:open", Mask: it.Mask, Verdict: "ALLOWED", Own: false, NameClass: 6}
+			t := ruleTuple{Cls: "file:open", Mask: it.Mask, Verdict: "ALLOWED", Own: it.Own, NameClass: 6}
 			line, want, name := renderRuleRecord(t, 100000+hi, it.P)
 			batch = append(batch, line)
 			pend = append(pend, pending{want: want, name: name, t: t})
